@@ -173,7 +173,16 @@ def gen_float(rng, negative=True):
 def gen_value(rng, ftype, fnum=0):
     """A text canonical for the field's C++ class (render is the identity on it)."""
     if FT_INT <= ftype <= FT_END_INT:
-        return str(rng.choice((0, 1, 7, rng.randrange(100), rng.randrange(100000), 214748364 if rng.random() < 0.02 else 42))).encode()
+        v = rng.choice((0, 1, 7, rng.randrange(100), rng.randrange(100000), 214748364 if rng.random() < 0.02 else 42))
+        # since /repo a8219b1 fast_atoi handles the sign and the full int range: negative values and the
+        # extremes for the plain int classes (not for Length / NumInGroup, which the codec interprets)
+        if ftype not in (FT_LENGTH, FT_NUMINGROUP):
+            r = rng.random()
+            if r < 0.12:
+                v = -rng.choice((1, 5, 42, rng.randrange(1, 100000), 2147483647))
+            elif r < 0.16:
+                v = rng.choice((2147483647, -2147483648, 2147483600, 999999999))
+        return str(v).encode()
     if ftype == FT_CHAR:
         return rng.choice("ABCDEFGHIJKLMNOPQRSTUVWXYZ0123456789abcxyz").encode()
     if ftype == FT_BOOLEAN:
